@@ -61,3 +61,24 @@ func copyDir(src, dst string) error {
 		return os.WriteFile(t, b, 0o644)
 	})
 }
+
+// nFix is the number of fixture cases at the head of a case list: every third directory in the quick tier, all in thorough.
+func nFix(tier string) int {
+	if tier == "thorough" {
+		return nFixtureCases
+	}
+	return (nFixtureCases + 2) / 3
+}
+
+// fixtureAt maps the k-th fixture case of a tier to its directory.
+func fixtureAt(repo, tier string, k int) string {
+	if tier != "thorough" {
+		k *= 3
+	}
+	d := fixtureFor(repo, k)
+	// ipblockstest_4 partitions the address space into thousands of ranges (25 s per analysis): thorough tier only
+	if tier != "thorough" && filepath.Base(d) == "ipblockstest_4" {
+		d = fixtureFor(repo, k+1)
+	}
+	return d
+}
